@@ -32,7 +32,8 @@ class Keychain(object):
     def _init_table_hash160(self) -> None:
         self._exec_sql_list(
             [
-                "create table if not exists HASH160 (hash160 blob primary key, path text, fingerprint blob)",
+                "create table if not exists HASH160 (hash160 blob, path text, fingerprint blob,"
+                " primary key (hash160, path, fingerprint))",
             ]
         )
 
@@ -79,12 +80,15 @@ class Keychain(object):
             total += 1
         return total
 
-    def path_for_hash160(self, h160: bytes) -> tuple[bytes, str] | None:
-        SQL = "select fingerprint, path from HASH160 where hash160 = ?"
+    def paths_for_hash160(self, h160: bytes) -> list[tuple[bytes, str]]:
+        SQL = "select fingerprint, path from HASH160 where hash160 = ? order by rowid"
         c = self._exec_sql(SQL, h160)
-        r = c.fetchone()
-        if r is not None:
-            return r[0], r[1].decode("utf8")
+        return [(r[0], r[1].decode("utf8")) for r in c.fetchall()]
+
+    def path_for_hash160(self, h160: bytes) -> tuple[bytes, str] | None:
+        paths = self.paths_for_hash160(h160)
+        if paths:
+            return paths[0]
         return None
 
     def add_p2s_script(self, script: bytes) -> None:
@@ -123,9 +127,7 @@ class Keychain(object):
             return v
 
         if h160 not in self._secret_exponent_cache:
-            result = self.path_for_hash160(h160)
-            if result:
-                fingerprint, path = result
+            for fingerprint, path in self.paths_for_hash160(h160):
                 for key in self._secrets.get(fingerprint, []):
                     subkey = key.subkey_for_path(path)
                     self._add_key_to_cache(subkey)
@@ -148,7 +150,7 @@ class Keychain(object):
         self._secret_exponent_cache: dict[bytes, Any] = {}
 
     def interested_hashes(self) -> Generator[bytes, None, None]:
-        SQL = "select hash160 from HASH160"
+        SQL = "select distinct hash160 from HASH160"
         c = self._exec_sql(SQL)
         for r in c:
             yield r[0]
